@@ -54,6 +54,7 @@ from qce_circuit.structure.intrf_acquisition_operation import IAcquisitionOperat
 from qce_circuit.structure.intrf_circuit_operation import ICircuitOperation
 from qce_circuit.structure.registry_duration import (
     IDurationStrategy,
+    GlobalDurationStrategy,
     GlobalDurationRegistry,
     GlobalDurationRegistryManager,
     GlobalRegistryKey,
@@ -1175,6 +1176,10 @@ def get_circuit_qec_round_with_dynamical_decoupling_simplified(connectivity: IRe
             result.add(Wait(data_index, duration_strategy=dynamical_decoupling_wait, relation=relation))
             result.add(Rx180(data_index))
             result.add(Wait(data_index, duration_strategy=dynamical_decoupling_wait))
+    else:
+        # Data qubits idle during ancilla measurement
+        for data_index in connectivity.rotation_data_qubit_indices:
+            result.add(Wait(data_index, duration_strategy=GlobalDurationStrategy(GlobalRegistryKey.READOUT), relation=relation))
     return result
 
 
